@@ -308,6 +308,11 @@ func (g *Engine) RunHarness(name string) *Result {
 					vo := ViolationOut{Kind: v.Kind, Label: v.Label, Pos: v.Pos, Path: fmt.Sprint(v.Path)}
 					vo.Replay = g.writeReplay(name, v, len(res.Violations))
 					res.Violations = append(res.Violations, vo)
+					if v.Kind == "recursion" || v.Kind == "nontermination" {
+						// the run crashes or hangs on this input: one counterexample decides, and exploring the
+						// remaining paths of a tree that recurses or loops without bound can take half an hour
+						stop = true
+					}
 				}
 				if g.cfg.MaxViol > 0 && len(res.Violations) >= g.cfg.MaxViol {
 					stop = true
